@@ -2,6 +2,9 @@
 """Regenerates /verif/MANIFEST.json from the table below (one row per claimed property)."""
 import json, subprocess
 CHECKS = {
+ "C06": ("A", "bounded-exhaustive enumeration of the full rule grammar (rulegen(n)) with a planted unmatchable literal x word set; oracle: structural identity whenever the call returns Ok",
+         "Every rule with <= 3 items (thorough: <= 4, cursor-logic constructs) of a finite grammar covering sets, optionals, ellipses, structures, variables, alphas, environment sets, the special environment and condensed rules gets a mandatory /ɮ/ planted in every input alternative (insertion: every context), at the start and at the end, and is applied by the real interpreter to every word of a hand-shaped set (thorough: plus all decorated words of W(I4,3)); 3.1 M (quick) applications, all enumerated. The oracle needs no model: a rule that cannot match must return the word bit-identical.",
+         "Bounded by the item alphabets of harness/src/rulegen.rs and rules of <= 4 items. Err results are not violations of this property (panics/hangs are C02's).", "DESIGN.md §5 C06"),
  "C03": ("A", "bounded-exhaustive enumeration of a rule fragment x word space against a reference interpreter (stateless exploration of the real parser + Rule::apply)",
          "Every rule of the basic fragment over a fixed item alphabet (quick: 10 619 rules with one environment item per side, as context and as exception; thorough: two items per side, context x exception, environment sets of two, 0.3 M rules) is run on every word of W(I4,4) / W(I3,5) / W(I4,5) in every syllabification and compared structurally with an independent 150-line reference interpreter written from the manual. No sampling: boxes are completed or the run fails.",
          "Trusts harness/src/refint.rs. Bounded by the item alphabet (9 segment items, $, #), <= 2 items per side, words <= 5 segments over 3-4 phones; the window argument of DESIGN §6 explains why this exhibits every neighbourhood. Cases with equal adjacent segments inside a syllable are skipped as the property says.", "DESIGN.md §5 C03"),
